@@ -59,6 +59,11 @@ pub struct CrateCfg {
     pub lib_only: bool,
     pub with_vrt: bool,
     pub target_dir: Option<PathBuf>,
+    /// only every n-th program is part of this build (release builds of quick tiers)
+    pub every_nth: usize,
+    /// build the library as a cdylib with panic = "abort": a final artifact, so a hidden dependency on an
+    /// allocator shows up when it is linked
+    pub cdylib: bool,
 }
 
 impl CrateCfg {
@@ -75,6 +80,8 @@ impl CrateCfg {
             lib_only: false,
             with_vrt: true,
             target_dir: None,
+            every_nth: 1,
+            cdylib: false,
         }
     }
 }
@@ -137,6 +144,7 @@ name = "corpus_{id}"
 version = "0.0.0"
 edition = "2021"
 
+{lib}
 [dependencies]
 {strum}
 {vrt}
@@ -148,6 +156,7 @@ edition = "2021"
 opt-level = 0
 debug = 0
 incremental = false
+{panic}
 
 [profile.dev.package."*"]
 opt-level = 2
@@ -158,11 +167,14 @@ debug = 0
 incremental = false
 overflow-checks = false
 debug-assertions = false
+{panic}
 
 [profile.release.package."*"]
 opt-level = 2
 "#,
         id = cfg.id,
+        lib = if cfg.cdylib { "[lib]\ncrate-type = [\"cdylib\"]\n" } else { "" },
+        panic = if cfg.cdylib { "panic = \"abort\"" } else { "" },
         strum = strum_dep,
         vrt = if cfg.with_vrt { format!("vrt = {{ path = \"{}\" }}", env.verif.join("engine/vrt").display()) } else { String::new() },
         extra = cfg.extra_deps.join("\n"),
@@ -212,7 +224,7 @@ opt-level = 2
         let mut lay = ShardLayout { file: format!("src/bin/{}.rs", bin_name(cfg, sh)), modules: vec![], tags: vec![], ranges: vec![], enums: vec![] };
         let mut runs = Vec::new();
         for (k, it) in items.iter().enumerate() {
-            if k % NSHARDS != sh || removed.contains(&it.spec.name) {
+            if k % NSHARDS != sh || removed.contains(&it.spec.name) || (k / NSHARDS) % cfg.every_nth != 0 {
                 continue;
             }
             let first = line + 1;
